@@ -11,8 +11,8 @@ SEEDS="$@"
 [ -z "$SEEDS" ] && SEEDS=$(ls seeded | grep -E '^C[0-9]+-[a-z]+$' | sort)
 git -C /repo worktree remove --force "$WT" 2>/dev/null
 git -C /repo worktree add -q --detach "$WT" HEAD || exit 2
-OUT=seeded/RECHECK.md
-{
+OUT=${OUT:-seeded/RECHECK.md}
+[ -n "${APPEND:-}" ] || {
 echo "# Re-run of every stored seeded change against the final machinery"
 echo
 echo "/repo HEAD $(git -C /repo rev-parse --short HEAD), /verif HEAD $(git rev-parse --short HEAD), $(date -u +%Y-%m-%dT%H:%MZ); produced by tools/recheck_all.sh"
@@ -37,6 +37,10 @@ for S in $SEEDS; do
   else O="MISSED"; fi
   echo "| $S | $O | \`$(echo "$LAST" | sed "s#$WT#<wt>#g" | cut -c1-160)\` |" >> $OUT
   echo "$S: $O"
+  REPLAY=$(echo "$LAST" | sed -n 's/.*replay=\([^ ]*\).*/\1/p')
+  case "$REPLAY" in
+    *.jsonl) if [ -s "$REPLAY" ]; then mkdir -p corpus/$PID; head -c 2000000 "$REPLAY" > corpus/$PID/seed_${S#*-}.jsonl; fi;;
+  esac
   python3 - "$D/meta.json" "$LAST" "$WT" <<'PY'
 import json, sys, subprocess
 f, last, wt = sys.argv[1:4]
